@@ -12,6 +12,7 @@ CONSTANTS
   Downs = @DOWNS@
   AuthClasses = @AUTH@
   HiddenClasses = @HIDDEN@
+  PortCfgs = @PORTS@
   AllCuts = @ALLCUTS@
   Dev = @DEV@
 INVARIANTS @INV@
